@@ -38,6 +38,10 @@ def run(ctx):
     expiry(ctx, f, cfg)
     gateway(ctx, f, cfg)
     slot_decision(ctx, f, cfg)
+    reuse_validator(ctx, f, cfg)
+    array_readers(ctx, f, cfg)
+    geometry_fields(ctx, f, cfg)
+    rate_arithmetic(ctx, f, cfg)
 
 
 def construct(ctx, f, cfg):
@@ -118,12 +122,24 @@ def reset_coverage(ctx, f, cfg):
         fields = [fl["name"] for fl in adt["variants"][0]["fields"]]
         sl = Slicer(f, b)
         stored = set()
+        sites = {}
         for bb, t in b.calls():
             if atomic_op(t) == "store":
                 a = sl.of_operand(t["args"][0])
-                stored |= {x.rsplit(".", 1)[-1] for x in a if x.startswith("field:" + b.impl_self + ".")}
+                for fn in {x.rsplit(".", 1)[-1] for x in a if x.startswith("field:" + b.impl_self + ".")}:
+                    stored.add(fn)
+                    sites.setdefault(fn, set()).update(b.scc_of(bb))      # a store inside a loop: the loop itself is the site
         missing = [x for x in fields if x not in stored]
-        ctx.instance("C02.reset-coverage", b.path, {"fields": fields, "stored": sorted(stored)}, "every field is stored", not missing, cfg)
+        # ... and on EVERY path: a reset that is skipped under some condition leaves the old counts in the recycled bucket
+        conditional = []
+        for fn in sorted(stored):
+            w = must_pass(b, [0], b.return_blocks(), sorted(sites[fn]))
+            if w is not None:
+                conditional.append(fn)
+        ctx.instance("C02.reset-coverage", b.path, {"fields": fields, "stored": sorted(stored), "stored_only_conditionally": conditional}, "every field is stored on every path", not missing and not conditional, cfg)
+        if conditional:
+            ctx.violation("C02.reset-coverage", "C02.reset-coverage|%s|conditional:%s" % (b.impl_self.rsplit("::", 1)[-1], ",".join(conditional)),
+                          "%s::reset stores %s only under a condition: a recycled bucket can keep old counts under a new time stamp" % (b.impl_self, conditional), b.loc(), config=cfg)
         if missing:
             ctx.violation("C02.reset-coverage", "C02.reset-coverage|%s|%s" % (b.impl_self.rsplit("::", 1)[-1], ",".join(missing)),
                           "%s::reset leaves %s untouched: a recycled bucket reports old counts under a new time stamp" % (b.impl_self, missing), b.loc(), config=cfg)
@@ -162,6 +178,140 @@ def reset_coverage(ctx, f, cfg):
                 if not g:
                     ctx.violation("C02.reset-coverage", "C02.reset-coverage|fresh", "a bucket is given a new time stamp without resetting its value although it may have been used", b.loc(bb), config=cfg)
 
+
+
+def reuse_validator(ctx, f, cfg, R="C02.construct/reuse-validator"):
+    """check_validity_for_reuse_statistic answers Ok only when both geometries are valid on their own, the array's interval is a multiple
+    of the window's interval and the window's bucket length is a multiple of the array's bucket length (the window tiles the array).
+    Judged per feasible path: every Ok path carries `parent_interval % interval == 0` and `bucket_len % parent_bucket_len == 0`, with
+    the operands in these roles."""
+    from .rules_C19 import _implied_rel, _feasible, _returns_variant
+    b = f.one("base::stat::check_validity_for_reuse_statistic")
+    if not ctx.floor(R, "check_validity_for_reuse_statistic", 1 if b else 0, 1):
+        return
+    sl = Slicer(f, b)
+    # operand roles of the two remainder operations
+    rems = []
+    for blk in b.blocks:
+        for st in blk["stmts"]:
+            if st["k"] == "assign" and st["rv"]["k"] == "bin" and st["rv"]["op"] in ("Rem", "RemWithOverflow"):
+                a, c = sl.of_operand(st["rv"]["a"]), sl.of_operand(st["rv"]["b"])
+                own = lambda x: "param:interval_ms" in x or "param:sample_count" in x
+                par = lambda x: "param:parent_interval_ms" in x or "param:parent_sample_count" in x
+                kind = "bucket" if ("op:Div" in a or "op:Div" in c) else "interval"
+                good = (kind == "interval" and par(a) and not own(a) and own(c) and not par(c)) or \
+                       (kind == "bucket" and own(a) and not par(a) and par(c) and not own(c))
+                rems.append((kind, good))
+    roles = [("rem_bucket", ["op:Rem", "op:Div"], []), ("rem_interval", ["op:Rem"], ["op:Div"])]
+    w = D.Walker(f, b, make_classifier(roles), unroll=1)
+    n_ok, bad = 0, []
+    for pth in w.walk(0, lambda bb, env: None):
+        if pth["outcome"][0] != "return" or not _feasible(pth) or not _returns_variant(b, pth, "Ok"):
+            continue
+        n_ok += 1
+        ri = _implied_rel(pth["lits"], "rem_interval", "const:0")
+        rb = _implied_rel(pth["lits"], "rem_bucket", "const:0")
+        inner = sum(1 for x in pth["blocks"] for t in [b.term(x)] if t and t["k"] == "call" and callee_def(t).endswith("check_validity_for_statistic"))
+        if ri != {"="} or rb != {"="} or inner < 2:
+            bad.append({"parent_interval%interval": sorted(ri) if ri else "untested", "bucket%parent_bucket": sorted(rb) if rb else "untested", "own_validations": inner})
+    ok = n_ok >= 1 and not bad and sorted(rems) == [("bucket", True), ("interval", True)]
+    ctx.instance(R, b.path, {"ok_paths": n_ok, "ok_paths_missing_a_test": bad[:2], "remainders(kind, operands in role)": rems},
+                 "Ok only if both geometries valid, parent_interval % interval == 0 and bucket_len % parent_bucket_len == 0", ok, cfg)
+    if not ok:
+        ctx.violation(R.split("/")[0], "%s|check_validity_for_reuse_statistic" % R, "a read window that does not tile the underlying array is accepted: %s" % (bad[:1] or rems), b.loc(), config=cfg)
+
+
+def geometry_fields(ctx, f, cfg):
+    """Each geometry field of LeapArray / SlidingWindowMetric is computed from the value's OWN constructor parameters:
+    bucket_len_ms = interval_ms / sample_count (not the other array's bucket length), sample_count, interval_ms copied."""
+    n = 0
+    for adt, ctor in ((LEAP, "LeapArray::<T>::new"), (SWM, "SlidingWindowMetric::new")):
+        bs = f.find(ctor)
+        if not bs:
+            continue
+        b = bs[0]
+        sl = Slicer(f, b)
+        for blk in b.blocks:
+            for st in blk["stmts"]:
+                if st["k"] == "assign" and st["rv"]["k"] == "agg" and st["rv"].get("adt") == adt:
+                    n += 1
+                    bad = []
+                    for nm, o in zip(st["rv"]["fields"], st["rv"]["ops"]):
+                        at = sl.of_operand(o)
+                        params = sorted(x[6:] for x in at if x.startswith("param:"))
+                        calls = sorted(x for x in at if x.startswith("call:") and not x.endswith(("::branch", "from_residual")))
+                        if nm == "bucket_len_ms":
+                            good = set(params) == {"interval_ms", "sample_count"} and "op:Div" in at and not calls
+                        elif nm in ("sample_count", "interval_ms"):
+                            good = params == [nm] and not calls and not any(x.startswith("op:") for x in at)
+                        else:
+                            good = True
+                        if not good:
+                            bad.append("%s <- %s" % (nm, params + [short(c) for c in calls] + sorted(x for x in at if x.startswith("op:"))))
+                    ctx.instance("C02.construct/fields", b.path, {"not_from_own_parameters": bad}, "bucket_len_ms = interval_ms / sample_count of this value; counts copied", not bad, cfg)
+                    if bad:
+                        ctx.violation("C02.construct", "C02.construct|fields|%s|%s" % (adt.rsplit("::", 1)[-1], ",".join(x.split(" ")[0] for x in bad)),
+                                      "%s stores geometry that is not its own: %s" % (adt.rsplit("::", 1)[-1], bad), b.loc(), config=cfg)
+    ctx.floor("C02.construct/fields", "geometry aggregates in the two constructors", n, 2)
+
+
+def rate_arithmetic(ctx, f, cfg):
+    """Per-second rates divide by the window length in seconds as a real number: no integer division whose truncated result is converted
+    to f64 afterwards in the statistics readers."""
+    from .lossy import int_div_sites
+    bodies = [b for p, b in f.bodies.items() if (b.impl_self in (SWM, "core::stat::base::bucket_leap_array::BucketLeapArray") or ".::stat::" in p or "::stat::base::" in p or "::stat::resource_node::" in p) and "test" not in p]
+    sites = []
+    for b in bodies:
+        for kind, bi, what in int_div_sites(f, b):
+            if kind == "div-then-float":
+                sites.append((b, bi, what))
+    ctx.instance("C02.rate-arithmetic", "statistics readers", {"bodies": len(bodies), "lossy_sites": [x[0].path for x in sites]}, "no truncated division feeding a real-valued rate", not sites and len(bodies) >= 20, cfg)
+    for b, bi, what in sites:
+        ctx.violation("C02.rate-arithmetic", "C02.rate-arithmetic|%s" % b.path.replace("core::", "", 1), "%s: %s (a window that is not a whole number of seconds gets the wrong rate)" % (b.path, what), b.loc(bi), config=cfg)
+
+
+# bodies allowed to touch LeapArray.array directly; each hands buckets out only through its own expiry / in-bucket test (the readers
+# among them have a decision table in expiry() or are listed with the reason)
+ARRAY_TOUCHERS = {
+    "LeapArray::<T>::new": "builds the ring",
+    "LeapArray::<T>::get_bucket_of_time": "write path (C02.slot-decision)",
+    "LeapArray::<T>::reset_bucket": "roll-over (C02.reset-coverage/relabel)",
+    "LeapArray::<T>::get_valid_values_conditional": "filtered reader (table)",
+    "LeapArray::<T>::valid_array": "filtered reader (table)",
+    "LeapArray::<T>::get_bucket_value": "filtered reader (table)",
+    "LeapArray::<T>::get_previous_bucket": "returns a bucket only if it is not deprecated",
+    "LeapArray::<T>::valid_head": "returns a bucket only if it is not deprecated",
+    "<core::stat::base::leap_array::LeapArray<T> as std::fmt::Debug>::fmt": "debug printing",
+}
+
+
+def array_readers(ctx, f, cfg, R="C02.expiry-filter/who-reads-array"):
+    """Nobody outside the listed LeapArray methods reads the ring itself: every other statistic (sliding windows, breaker counters,
+    warm-up) goes through the filtered readers, so buckets older than the window are never summed."""
+    touch = set()
+    for p, b in f.bodies.items():
+        for blk in b.blocks:
+            if blk["cleanup"]:
+                continue
+            pls = []
+            for st in blk["stmts"]:
+                if st["k"] == "assign":
+                    rv = st["rv"]
+                    if "pl" in rv:
+                        pls.append(rv["pl"])
+                    for k in ("op", "a", "b"):
+                        if isinstance(rv.get(k), dict) and rv[k].get("pl"):
+                            pls.append(rv[k]["pl"])
+                    pls.append(st["lhs"])
+            t = blk["term"]
+            if t and t["k"] == "call":
+                pls += [a["pl"] for a in t["args"] if a.get("pl")]
+            if any(pj.endswith("LeapArray.array") for pl in pls for pj in pl["p"]):
+                touch.add(p)
+    extra = sorted(p for p in touch if not any(p.endswith(k) or p == k for k in ARRAY_TOUCHERS) and "::test" not in p)
+    ctx.instance(R, "LeapArray.array", {"bodies_touching_the_ring": len(touch), "outside_the_filtered_readers": extra}, "only the listed LeapArray methods", not extra and len(touch) >= 6, cfg)
+    for p in extra:
+        ctx.violation(R.split("/")[0], "%s|%s" % (R, p.replace("core::", "", 1)), "%s reads LeapArray.array directly, bypassing the expiry filter: buckets older than the window are reported" % p, f.bodies[p].loc(), config=cfg)
 
 
 def slot_decision(ctx, f, cfg):
